@@ -29,10 +29,9 @@ TRUSTED_BASE = ["Coq 8.16.1 kernel (coqc), vm_compute only", "Extraction with Ex
                 "hand-written model coq/Codec/*.v of runtime/message.cpp + include/fix8/message.hpp, tied by differential execution",
                 "harness/h_codec.cpp + harness/meta_dump.hpp (metadata taken from the compiled generated classes)",
                 "ocaml/prelude.ml + ocaml/c04_driver.ml (metadata and dump parsers), vlib/codecgen.py + vlib/suites/c04.py (generators)"]
-ASSUMPTIONS = ["values contain neither SOH nor NUL and are shorter than 2048 bytes (memory safety of longer ones is C03)",
+ASSUMPTIONS = ["values contain neither SOH nor NUL",
                "float / date / time texts are canonical for their type (render is the identity on them; C08 / C09 own the conversions)",
-               "cases whose int-typed texts carry a sign run on a harness built without sanitizers: fast_atoi<int> left-shifts the "
-               "negative intermediate value (UBSan report at f8utils.hpp:630, DESIGN F09), the wrapped result is what the model computes",
+               "int texts stay below 2^31 in absolute value (fast_atoi<int> multiplies without an overflow test)",
                "the schema metadata satisfies wf_ctx (evaluated by the extracted code on every run; the check refuses to run when "
                "the quick-tier schema FIX42UTEST fails it; FIX44 fails it through field 604 only, see wf_ctx_note in the evidence)",
                "a Length-typed token directly followed by a piece with more leading digits than its own tag is not generated: "
@@ -45,7 +44,8 @@ RULE = ("valid messages generated from the dumped metadata (every message type; 
         "checksum, CheckSum text variants (sum + 256 / 512 / 768, i.e. equal only modulo 256; four bytes 0ddd; unpadded; signed; "
         "sum + 1000; three bytes with a non-digit that fast_atoi reads as the sum), wrong or zero-padded BodyLength, duplicate of a part-level token, duplicate of 8/9/35/10, token moved to another part "
         "or into / out of a group, mandatory token deleted, random token deleted, first token of a group element deleted or swapped, "
-        "int text variants (+5 1e3 007 -0 -7), BeginString changed, zero-padded tag, token without '=' / with empty tag, part fields "
+        "int text variants (+5 1e3 007 -0 -7), BeginString changed, zero-padded tag, token without '=' / with empty tag (also inside "
+        "group elements), value of 2046..3000 bytes / BodyLength or MsgType text of 29..43 bytes (buffer capacities), part fields "
         "reshuffled, count changed, last token dropped, unknown MsgType.  non-trivial = the decoder got past the preamble (result is an "
         "object dump or an exception other than InvalidMessage) on at least 8 tokens; distinct = distinct case lines")
 
@@ -75,8 +75,6 @@ def wf_probe(built):
 
 def build(tier):
     built = G.build_codec(schemas(tier))
-    plain = G.build_codec(schemas(tier), variant="plain")
-    built["plain_exes"] = plain["exes"]
     _state["built"] = built
     wf = wf_probe(built)
     _state["wf"] = wf
@@ -173,7 +171,7 @@ def flatten(meta, owner, part, fs, rng, shuffle, depth=0, elem=None, out=None):
     return out
 
 
-INT_VARIANTS = (b"+5", b"1e3", b"007", b"-0", b"-7", b"0", b"12", b"00", b" 5", b"5 ", b"0x10", b"-")
+INT_VARIANTS = (b"+5", b"1e3", b"007", b"-0", b"-7", b"-007", b"-2147483647", b"0", b"12", b"00", b" 5", b"5 ", b"0x10", b"-", b"--5", b"5-")
 
 
 def unknown_tag(meta, rng):
@@ -445,18 +443,33 @@ def m_lead0(m, rng):
 
 
 def m_malformed(m, rng):
-    # only directly after a part-level token that opens no group: a token that extract_element
-    # rejects INSIDE a group without mandatory members makes decode_group spin for ever (C03, F08)
-    ok = [i + 1 for i, x in enumerate(m.toks) if x.depth == 0 and x.raw is None
-          and not (m.meta.trait(x.owner, x.tag) is not None and m.meta.trait(x.owner, x.tag).group)
-          and (i + 1 == len(m.toks) or m.toks[i + 1].depth == 0)]
-    if not ok:
+    # anywhere, also inside group elements (since /repo a0d41df decode_group leaves its element loop on a token
+    # that extract_element rejects; before, it span for ever: C03, F08)
+    if not m.toks:
         return None
-    i = rng.choice(ok)
+    i = rng.randrange(1, len(m.toks) + 1)
     x = Tok(0, b"", m.toks[i - 1].part, "?", 0)
     x.raw = rng.choice((b"58text" + SOH, b"=x" + SOH, b"A=1" + SOH, b"5 8=x" + SOH, SOH, b"58" + SOH, b"-58=x" + SOH))
     m.toks.insert(i, x)
     return "malformed-token"
+
+
+def m_longval(m, rng):
+    """Value lengths around the capacity of decode's value buffer (2048 bytes incl. the NUL; 32 for BodyLength and
+    MsgType in factory): since /repo d48d8ce extract_element FAILS at capacity instead of writing past the buffer,
+    so the part's decode loop ends there as it does on a malformed token."""
+    if rng.random() < 0.2:
+        if rng.random() < 0.5:
+            m.bodylen = b"0" * rng.choice((26, 28, 29, 30, 40)) + b"123"
+        else:
+            m.mtype = m.mtype + b"x" * rng.choice((29, 30, 31, 40))
+        return "long-value"
+    cand = [x for x in m.toks if x.raw is None and m.meta.fields.get(x.tag, (0,))[0] == G.FT_STRING]
+    if not cand:
+        return None
+    n = rng.choice((2046, 2047, 2047, 2048, 2048, 2049, 3000))
+    rng.choice(cand).val = bytes(rng.choice(b"abcdefghijklmnopqrstuvwxyz0123456789 .") for _ in range(n))
+    return "long-value"
 
 
 def m_reorder(m, rng):
@@ -501,7 +514,7 @@ def m_msgtype(m, rng):
 
 MUTATIONS = [(m_unknown, 12), (m_bigtag, 8), (m_badck, 4), (m_chktext, 5), (m_badbl, 4), (m_dup, 8), (m_dup_auto, 4), (m_misplace, 12),
              (m_drop_mand, 7), (m_drop_any, 4), (m_nofirst, 7), (m_numeric, 8), (m_begin, 2), (m_lead0, 3),
-             (m_malformed, 3), (m_reorder, 5), (m_count, 4), (m_truncate, 1), (m_msgtype, 2)]
+             (m_malformed, 3), (m_longval, 3), (m_reorder, 5), (m_count, 4), (m_truncate, 1), (m_msgtype, 2)]
 
 
 def pick_mut(rng):
@@ -598,33 +611,8 @@ def tokenize(raw):
     return out
 
 
-def _signed_int_text(meta, raw):
-    ts = tokenize(raw)
-    if ts is None:
-        return b"=+" in raw or b"=-" in raw
-    for tag, _, val in ts:
-        if val[:1] in (b"+", b"-", b" ") or any(c < 48 for c in val):
-            ty = meta.fields.get(tag % 65536, (G.FT_STRING,))[0]
-            if G.FT_INT <= ty <= G.FT_END_INT or tag in (9, 10):
-                return True
-    return False
-
-
 def run_impl(built, cases, tier):
-    """Cases with a signed / sub-'0' int text go to the harness built without sanitizers (see ASSUMPTIONS)."""
-    default = next(iter(built["exes"]))
-    res = [None] * len(cases)
-    by = {}
-    for k, c in enumerate(cases):
-        meta, schema, raw = _parse_case(c)
-        s, rest = G.schema_of(c.line, default)
-        exe = built["plain_exes"][s] if _signed_int_text(meta, raw) else built["exes"][s]
-        by.setdefault(exe, []).append((k, rest))
-    for exe, items in by.items():
-        out = core.run_lines([exe], [r for _, r in items], per_case_timeout=20)
-        for (k, _), r in zip(items, out):
-            res[k] = r
-    return res
+    return G.run_impl_multi(built, cases, tier)
 
 
 def nontrivial(case, r):
@@ -777,14 +765,19 @@ def c_begin_string(case, r, m):
     return r.startswith("OK ") and a.toks is not None and len(a.toks) > 0 and a.toks[0][0] == 8 and a.toks[0][2] != a.meta.begin
 
 
+def _canon_int(val):
+    d = val[1:] if val[:1] == b"-" else val
+    return d.isdigit() and d.isascii()
+
+
 def c_int_text(case, r, m):
-    """an int-typed field whose text is not a plain digit string (fast_atoi: no sign, no digit test)."""
+    """an int-typed field whose text is not an optional '-' followed by digits (fast_atoi: no digit test, no '+')."""
     a = _an(case)
     if not r.startswith("OK ") or a.toks is None:
         return False
     for tag, _, val in a.toks:
         ty = a.meta.fields.get(tag, (G.FT_STRING,))[0]
-        if G.FT_INT <= ty <= G.FT_END_INT and not (val.isdigit() and val.isascii()):
+        if G.FT_INT <= ty <= G.FT_END_INT and not _canon_int(val):
             return True
     return False
 
@@ -805,7 +798,17 @@ def c_checksum_text(case, r, m):
     return len(v) == 3 and not (v.isdigit() and v.isascii())
 
 
-CLASSIFIERS = {"checksum-text": c_checksum_text, "unknown-tag": c_unknown_tag, "big-tag": c_big_tag, "foreign-tag": c_foreign_tag, "auto-dup": c_auto_dup,
+def c_long_value(case, r, m):
+    """a value does not fit decode's buffers (2047 bytes; 31 for BodyLength / MsgType in factory): extract_element
+    returns 0 there, the decode loops end as on a malformed token (truncated accept, or a later mandatory field is
+    reported missing / InvalidMessage) although the message conforms."""
+    a = _an(case)
+    if a.toks is None:
+        return False
+    return any(len(v) >= 2048 or (t in (9, 35) and len(v) >= 32) for t, _, v in a.toks)
+
+
+CLASSIFIERS = {"long-value": c_long_value, "checksum-text": c_checksum_text, "unknown-tag": c_unknown_tag, "big-tag": c_big_tag, "foreign-tag": c_foreign_tag, "auto-dup": c_auto_dup,
                "length-field": c_length_field, "begin-string": c_begin_string, "int-text": c_int_text,
                "malformed-token": c_malformed}
 
